@@ -50,7 +50,7 @@ def jobs(tier, seed):
     for solver in ("vi", "pi", "rvi", "pvi", "savi"):
         for route in ("restore", "load"):
             out.append(dict(name=f"complete-{solver}-{route}", kind="complete", solver=solver, route=route, devices=1, seed=seed, cost=2))
-        out.append(dict(name=f"steps-{solver}", kind="steps", solver=solver, devices=1, seed=seed, cost=10))
+        out.append(dict(name=f"steps-{solver}", kind="steps", solver=solver, maxlen=3 if tier == "quick" else 4, devices=1, seed=seed, cost=10 if tier == "quick" else 40))
         out.append(dict(name=f"overrides-{solver}", kind="overrides", solver=solver, devices=1, seed=seed, cost=10))
         out.append(dict(name=f"errors-{solver}", kind="errors", solver=solver, devices=1, seed=seed, cost=3))
         out.append(dict(name=f"reuse-{solver}", kind="reuse", solver=solver, devices=1, seed=seed, cost=40))
@@ -169,7 +169,7 @@ def mutated_and_read(name, kind):
 
 def run_steps(job, ob):
     name = job["solver"]
-    hist = [h for L in (1, 2, 3) for h in itertools.product(range(1, 5), repeat=L)]
+    hist = [h for L in range(1, job.get("maxlen", 3) + 1) for h in itertools.product(range(1, 5), repeat=L)]
 
     def fn(dirs):
         res = []
